@@ -23,10 +23,40 @@ import (
 // stepped in lockstep with the real Encoder and compared after every call.
 
 const (
-	c10Enum   = iota // one legal history H; every position x every fault class; Reset at later positions + legal tail
-	c10Random        // seeded history over the whole alphabet, legality not respected
-	c10Long          // long legal histories (runs of hundreds of identical drawing calls), decode oracle only
+	c10Enum    = iota // one legal history H; every position x every fault class; Reset at later positions + legal tail
+	c10Random         // seeded history over the whole alphabet, legality not respected
+	c10Long           // long legal histories (runs of hundreds of identical drawing calls), decode oracle only
+	c10Exhaust        // every history up to a depth bound over an abstract alphabet of 16 representative calls
 )
+
+// c10Alphabet is the abstract alphabet of the exhaustive mode: one or two
+// concrete representatives per call class of the property's quantifier
+// (reset, selector read, styling ok / bad-adj / bad-incr, start-path ok / bad,
+// draw, close-move, end-path, bytes).
+func c10Alphabet() []world.Op {
+	pal := ivg.DefaultPalette
+	pal[0] = color.RGBA{0x80, 0, 0, 0x80}
+	return []world.Op{
+		{K: world.KReset, VB: ivg.DefaultViewBox},
+		{K: world.KReset, VB: ivg.ViewBox{MinX: 0, MinY: 0, MaxX: 48, MaxY: 24}, Pal: &pal},
+		{K: world.KCSel},
+		{K: world.KBytes},
+		{K: world.KLOD},
+		{K: world.KSetCSel, U: 70},
+		{K: world.KSetCReg, U: 2, C: ivg.RGBAColor(color.RGBA{0x40, 0x40, 0x40, 0x40})},
+		{K: world.KSetNReg, Incr: true, F: [6]float32{0.25}},
+		{K: world.KSetLOD, F: [6]float32{8, 64}},
+		{K: world.KSetCReg, U: 7, C: ivg.PaletteIndexColor(1)},  // bad adj
+		{K: world.KSetNReg, U: 3, Incr: true, F: [6]float32{1}}, // bad incr
+		{K: world.KStartPath, U: 1, F: [6]float32{-8, 2.5}},     // ok
+		{K: world.KStartPath, U: 9, F: [6]float32{1, 1}},        // bad adj
+		{K: world.KAbsLineTo, F: [6]float32{3, -4}},             // draw
+		{K: world.KClosePathRelMoveTo, F: [6]float32{1.5, 1}},   // close-move
+		{K: world.KClosePathEndPath},                            // end-path
+	}
+}
+
+const c10ExhaustBlock = 4096 // histories per case
 
 func classOf(o *world.Op) (model.Class, uint8, bool) {
 	switch {
@@ -299,7 +329,7 @@ func probeOp(t *tape.Tape) world.Op {
 }
 
 func c10Run(ctx *Ctx, t *tape.Tape) *report.Violation {
-	mode := t.Intn(3)
+	mode := t.Intn(4)
 	st := ctx.Stats
 	trace := func(v *report.Violation, hist []world.Op, notes ...string) *report.Violation {
 		v.Trace = append(append([]string{}, notes...), world.FormatOps(hist, 60)...)
@@ -307,6 +337,51 @@ func c10Run(ctx *Ctx, t *tape.Tape) *report.Violation {
 		return v
 	}
 	switch mode {
+	case c10Exhaust:
+		// block b of the enumeration: histories are numbered in base 16, all
+		// lengths 1..depth, shorter ones first
+		alpha := c10Alphabet()
+		depth := c10Depth(ctx.Tier)
+		block := t.Intn(c10ExhaustBlocks(ctx.Tier))
+		lit := t.Intn(2) == 1 // replay form: the history follows on the tape
+		if lit {
+			n := t.Intn(depth + 1)
+			h := make([]world.Op, n)
+			for i := range h {
+				h[i] = alpha[t.Intn(len(alpha))]
+			}
+			if v := checkHistory(ctx, h, true); v != nil {
+				return trace(v, h, "history from the exhaustive enumeration over the abstract alphabet")
+			}
+			return nil
+		}
+		first := block * c10ExhaustBlock
+		for idx := first; idx < first+c10ExhaustBlock; idx++ {
+			syms := c10Unrank(idx, len(alpha), depth)
+			if syms == nil {
+				break
+			}
+			h := make([]world.Op, len(syms))
+			for i, s := range syms {
+				h[i] = alpha[s]
+			}
+			if v := checkHistory(ctx, h, true); v != nil {
+				v = trace(v, h, "history from the exhaustive enumeration over the abstract alphabet")
+				// literal form, so that the tape shrinker can drop calls
+				lt := []uint64{c10Exhaust, 0, 1, uint64(len(syms))}
+				for _, s := range syms {
+					lt = append(lt, uint64(s))
+				}
+				v.Tape = lt
+				return v
+			}
+			if st != nil {
+				st.Add("evaluations", 1)
+				st.Add("exhaustive_histories", 1)
+				st.Distinct(fnvAdd(uint64(idx), 13))
+			}
+		}
+		return nil
 	case c10Long:
 		h := world.GenProgram(t, world.GenCfg{MaxItems: 8, EncOnly: true, Observers: true, NoReset: t.Chance(1, 3), LongRuns: 20})
 		if v := checkHistory(ctx, h, false); v != nil {
@@ -502,15 +577,54 @@ func genHistory(t *tape.Tape) []world.Op {
 	return h
 }
 
+func c10Depth(tier string) int {
+	if tier == "thorough" {
+		return 6
+	}
+	return 5
+}
+
+// c10Total is the number of histories of length 1..depth over k symbols.
+func c10Total(k, depth int) int {
+	n, p := 0, 1
+	for d := 1; d <= depth; d++ {
+		p *= k
+		n += p
+	}
+	return n
+}
+
+func c10ExhaustBlocks(tier string) int {
+	return (c10Total(16, c10Depth(tier)) + c10ExhaustBlock - 1) / c10ExhaustBlock
+}
+
+// c10Unrank returns the idx-th history (shorter first), nil past the end.
+func c10Unrank(idx, k, depth int) []int {
+	p := 1
+	for d := 1; d <= depth; d++ {
+		p *= k
+		if idx < p {
+			out := make([]int, d)
+			for i := d - 1; i >= 0; i-- {
+				out[i] = idx % k
+				idx /= k
+			}
+			return out
+		}
+		idx -= p
+	}
+	return nil
+}
+
 func init() {
 	register(&Property{
 		ID:    "C10",
 		Level: "fault_enumeration",
 		Cases: func(ctx *Ctx) int {
 			if ctx.Tier == "thorough" {
-				return 120000 + 4000000 + 400000
+				return 120000 + 4000000 + 400000 + c10ExhaustBlocks(ctx.Tier)
 			}
-			return 4000 + 150000 + 20000
+			return 4000 + 150000 + 20000 + c10ExhaustBlocks(ctx.Tier)
 		},
 		Prefix: func(ctx *Ctx, i int) []uint64 {
 			nEnum := 4000
@@ -527,12 +641,19 @@ func init() {
 			if i < nEnum+nRandom {
 				return []uint64{c10Random}
 			}
-			return []uint64{c10Long}
+			nLong := 20000
+			if ctx.Tier == "thorough" {
+				nLong = 400000
+			}
+			if i < nEnum+nRandom+nLong {
+				return []uint64{c10Long}
+			}
+			return []uint64{c10Exhaust, uint64(i - nEnum - nRandom - nLong), 0}
 		},
 		Run: c10Run,
 		Describe: func(tier string, s *report.Stats, cases int) Evidence {
 			return Evidence{
-				Rule: "Cases are call histories on the real encode.Encoder with the 4-state reference automaton (Initial/Styling/Drawing/Error, written from the property text) stepped in lockstep and compared through a Bytes probe after every call. (a) Fault enumeration: for each sampled legal history H (lattice arguments, probes at drawn positions) one out-of-protocol call of each of 7 classes is injected at every position of H; for each such faulted history a Reset (restart) is placed at every later position (all positions when the history has <=14 calls, three drawn ones otherwise) followed by a legal tail that must decode to exactly itself. (b) Seeded histories over the whole alphabet (Reset, observers, resolution flag, legal and illegal calls) with no regard to legality. Every history is run three ways: probed on the zero value, unprobed (probe-free), and probed on an Encoder reset with the default metadata (zero-value). distinct_nontrivial = hash-bitmap count of distinct histories that contain at least one fault or a Reset after the first call.",
+				Rule: "Cases are call histories on the real encode.Encoder with the 4-state reference automaton (Initial/Styling/Drawing/Error, written from the property text) stepped in lockstep and compared through a Bytes probe after every call. (a) Fault enumeration: for each sampled legal history H (lattice arguments, probes at drawn positions) one out-of-protocol call of each of 7 classes is injected at every position of H; for each such faulted history a Reset (restart) is placed at every later position (all positions when the history has <=14 calls, three drawn ones otherwise) followed by a legal tail that must decode to exactly itself. (b) Exhaustive: every history up to depth 5 (quick) / 6 (thorough) over an abstract alphabet of 16 representative calls, as the property's quantifier asks. (c) Long legal histories with runs of 37-300 identical drawing calls (decode oracle). (d) Seeded histories over the whole alphabet (Reset, observers, resolution flag, legal and illegal calls) with no regard to legality. Every history is run three ways: probed on the zero value, unprobed (probe-free), and probed on an Encoder reset with the default metadata (zero-value). distinct_nontrivial = hash-bitmap count of distinct histories that contain at least one fault or a Reset after the first call.",
 				Extra: map[string]interface{}{
 					"fault_kinds_fired":                    s.SortedCounters("fault_"),
 					"histories_driven_on_the_real_encoder": s.Counters["histories_driven"],
@@ -544,6 +665,8 @@ func init() {
 					"legal_histories_enumerated_over":      s.Counters["legal_histories"],
 					"seeded_histories":                     s.Counters["random_histories"],
 					"long_legal_histories":                 s.Counters["long_legal_histories"],
+					"exhaustive_histories":                 s.Counters["exhaustive_histories"],
+					"exhaustive_subspace":                  fmt.Sprintf("every history of length 1..%d over an abstract alphabet of 16 representative calls (2 Resets, CSel, Bytes, LOD, SetCSel, SetCReg ok, SetNReg incr ok, SetLOD, SetCReg bad adj, SetNReg bad incr, StartPath ok, StartPath bad adj, draw, close-move, end-path) is enumerated completely: %d histories", c10Depth(tier), c10Total(16, c10Depth(tier))),
 					"longest_history":                      s.Counters["max_history_length"],
 					"reach_probes": map[string]int64{
 						"fault injected strictly inside a history":           s.Counters["probe_fault_mid_history"],
